@@ -4,11 +4,14 @@ package main
 
 import (
 	"bytes"
+	"crypto/ecdsa"
 	"crypto/ed25519"
 	"encoding/base64"
 	"encoding/json"
 	"fmt"
 	"github.com/trustbloc/sidetree-go/pkg/document"
+	"github.com/trustbloc/sidetree-go/pkg/util/pubkey"
+	"math/big"
 	"os"
 	"sort"
 	"strings"
@@ -117,7 +120,7 @@ func (d lfDoc) build(pool *KeyPool) (*docdid.Doc, error) {
 
 		// the first service of a multi-key document carries the optional members and a property of its own
 		if i == 0 && len(d.keys) > 1 {
-			svc.Priority = 7
+			svc.Priority = lfPriority(len(d.keys))
 			svc.RecipientKeys = []string{"did:example:123#recipient"}
 			svc.RoutingKeys = []string{"did:example:123#routing"}
 			svc.Accept = []string{"didcomm/v2"}
@@ -229,7 +232,7 @@ func (d lfDoc) expected(pool *KeyPool, id string) lfSummary {
 
 		rest := map[string]interface{}{}
 		if i == 0 && len(d.keys) > 1 {
-			rest = map[string]interface{}{"priority": 7, "recipientKeys": []string{"did:example:123#recipient"},
+			rest = map[string]interface{}{"priority": lfPriority(len(d.keys)), "recipientKeys": []string{"did:example:123#recipient"},
 				"routingKeys": []string{"did:example:123#routing"}, "accept": []string{"didcomm/v2"}, "custom": "v", "\U0001f600": 1, "\ufb33": 2}
 		}
 
@@ -528,6 +531,47 @@ func longformReplay(args []string) {
 			if digestJSON(wantMD) != digestJSON(gotMD) {
 				fail("metadata", "", wantMD, gotMD)
 				return
+			}
+
+			// the same document with update keys that share everything but one member: an EC key and its mirror image (same
+			// x), and the same key with two nonces apart... each pair of keys gives two DIDs, and each DID reports the
+			// commitment of ITS key
+			if c.Call == 1 {
+				base := pool.Get("p256", "lf-twin").Pub.(*ecdsa.PublicKey)
+				mirror := &ecdsa.PublicKey{Curve: base.Curve, X: base.X, Y: new(big.Int).Sub(base.Curve.Params().P, base.Y)}
+				recK := pool.Get("ed", "lf-rec-1").Pub.(ed25519.PublicKey)
+
+				var twinDIDs []string
+
+				for _, uk := range []*ecdsa.PublicKey{base, mirror} {
+					d2, _ := lfDocs[c.Doc].build(pool)
+
+					tr, terr := vdr.Create(d2, vdrapi.WithOption(sidetreelongform.UpdatePublicKeyOpt, uk), vdrapi.WithOption(sidetreelongform.RecoveryPublicKeyOpt, recK))
+					if terr != nil {
+						fail("create-error", "update key on P-256: "+terr.Error(), nil, nil)
+						return
+					}
+
+					trd, rerr := vdr.Read(tr.DIDDocument.ID)
+					if rerr != nil || trd.DocumentMetadata == nil || trd.DocumentMetadata.Method == nil {
+						fail("create-error", "the DID created with a P-256 update key does not resolve: "+fmt.Sprint(rerr), nil, tr.DIDDocument.ID)
+						return
+					}
+
+					ukJWK, _ := pubkey.GetPublicKeyJWK(uk)
+					if want := refCommitment(jwkMap(ukJWK), sha2_256); trd.DocumentMetadata.Method.UpdateCommitment != want {
+						fail("metadata", "the update commitment reported is not the commitment of the update key supplied (a key and its mirror image share x)",
+							want, trd.DocumentMetadata.Method.UpdateCommitment)
+						return
+					}
+
+					twinDIDs = append(twinDIDs, tr.DIDDocument.ID)
+				}
+
+				if twinDIDs[0] == twinDIDs[1] {
+					fail("create-not-deterministic", "two different update keys (a key and its mirror image) give one DID", "two DIDs", twinDIDs[0])
+					return
+				}
 			}
 
 			// the suffix is the model hash of the suffix data of the state; the state is the exact
@@ -851,6 +895,8 @@ func longformReplay(args []string) {
 				suffix += "x"
 			case "doubled":
 				suffix += suffix
+			case "other_algorithm":
+				suffix = refModelHash(g["suffixData"], sha2_512)
 			}
 
 			did := ns + ":" + suffix + ":" + stateB64
@@ -935,4 +981,13 @@ func mustJCS(v interface{}) []byte {
 	}
 
 	return b
+}
+
+// lfPriority: the priority of the first service of a multi-key document (zero is a priority like any other)
+func lfPriority(nKeys int) int {
+	if nKeys == 4 {
+		return 0
+	}
+
+	return 7
 }
